@@ -670,12 +670,11 @@ def anaOp (ws ows : List String) : String :=
         | some ie, some isug => anaOracle i ie isug
         | _, _ => ["unparsable-report"]
       let states := (entries.map (fun e => showState e.state)).eraseDups
+      -- the rarest feature of the report names the branch
+      let order := ["permissive", "as0red", "as0", "redundant", "disallowing", "disallowed", "invlen",
+        "invasn", "seen", "unseen", "valid", "notfound", "notheld"]
       let br := if data.isNone then "noinfo" else
-        flagStr [(states.contains "valid", "V"), (states.contains "invlen", "L"), (states.contains "invasn", "A"),
-          (states.contains "disallowed", "D"), (states.contains "notfound", "N"), (states.contains "permissive", "P"),
-          (states.contains "redundant", "R"), (states.contains "as0", "0"), (states.contains "as0red", "Z"),
-          (states.contains "unseen", "U"), (states.contains "seen", "S"), (states.contains "disallowing", "X"), (states.contains "notheld", "H"),
-          (lim.isSome, "l")]
+        ((order.find? (fun s => states.contains s)).getD "empty") ++ (if lim.isSome then "/limit" else "")
       verdict "ana" br (exp == observed) exp observed orc
 
 def mspOp (ws ows : List String) : String :=
